@@ -151,8 +151,10 @@ impl PushParser {
                 continue;
             }
             if ")" == token {
-                // End of (sub) list
-                depth -= 1;
+                // End of (sub) list; an unmatched ')' is ignored
+                if depth > 0 {
+                    depth -= 1;
+                }
                 continue;
             }
 
